@@ -168,7 +168,25 @@ impl Visitor<Diagnostic> for LibraryRenderer {
         node: &DurationLiteral,
     ) -> Result<Self::Value, Diagnostic> {
         // Always write out as milliseconds. The largest unit is allowed to be "out of range"
-        let val = format!("TIME#{}ms", node.interval.whole_milliseconds());
+        let millis = node.interval.whole_milliseconds();
+        // The part below one millisecond as a fraction of the milliseconds
+        let nanos = (node.interval.whole_nanoseconds() % 1_000_000).unsigned_abs();
+        let val = if nanos == 0 {
+            format!("TIME#{}ms", millis)
+        } else {
+            let sign = if node.interval.is_negative() && millis == 0 {
+                "-"
+            } else {
+                ""
+            };
+            let fraction = format!("{:0>6}", nanos);
+            format!(
+                "TIME#{}{}.{}ms",
+                sign,
+                millis,
+                fraction.trim_end_matches('0')
+            )
+        };
         self.write_ws(val.as_str());
         Ok(())
     }
